@@ -27,6 +27,9 @@ type ClientContext struct {
 	ReturnType []reflect.Type
 	Timeout    time.Duration
 	client     *Client
+	// ioHandler is the IO handler chain as it was when the call began: handlers added or
+	// removed while the call is on its way do not concern it
+	ioHandler NextIOHandler
 }
 
 // NewClientContext returns a core.ClientContext.
@@ -66,6 +69,7 @@ func (c *ClientContext) Clone() Context {
 		c.ReturnType,
 		c.Timeout,
 		c.client,
+		c.ioHandler,
 	}
 }
 
